@@ -274,6 +274,33 @@ pub fn gen_c07(rng: &mut Rng, thorough: bool) -> Vec<Tagged> {
             out.push((format!("Softmax-stream{}-{}", r % 5, if bwd { "bwd" } else { "fwd" }), Case::Act(Act::Softmax, bwd, t1(v.clone()))));
         }
     }
+    // long inputs: lengths around the powers of two up to 1025 (block / lane / chunk sizes of any
+    // vectorised or blocked rewrite), flat and 3-D, every activation; for soft-max the largest logit sits on
+    // the last index of a block (255, 511, ...) in half of the cases
+    for (k, &n) in [63usize, 64, 65, 127, 128, 129, 255, 256, 257, 300, 511, 512, 513, 1023, 1024, 1025].iter().enumerate() {
+        for a in ALL_ACTS {
+            if !(thorough || a == Act::Softmax || (k + a as usize) % 4 == 0) {
+                continue;
+            }
+            let mut v: Vec<f32> = (0..n).map(|_| rng.sym() * 3.0).collect();
+            if k % 2 == 1 {
+                let peak = if n >= 256 { (n / 256) * 256 - 1 } else { n - 1 };
+                v[peak] = 9.0;
+            }
+            for bwd in [false, true] {
+                if bwd && n > 300 && !(thorough && a != Act::Softmax) {
+                    continue;
+                }
+                out.push((format!("{:?}-long-{}", a, if bwd { "bwd" } else { "fwd" }), Case::Act(a, bwd, t1(v.clone()))));
+            }
+            let (c, h, w) = match n { 255 | 256 => (4, 8, 8), 257 | 300 => (3, 10, 10), 511 | 512 | 513 => (2, 16, 17), 1023 | 1024 | 1025 => (5, 15, 14), _ => (1, 1, n) };
+            let mut v3: Vec<f32> = (0..c * h * w).map(|_| rng.sym() * 3.0).collect();
+            if c * h * w > 255 {
+                v3[255] = 7.5;
+            }
+            out.push((format!("{:?}-long-3d-fwd", a), Case::Act(a, false, t3(c, h, w, &v3))));
+        }
+    }
     // boundary vector through every element-wise activation
     let edge = strat_floats(rng, 0);
     for a in ALL_ACTS {
@@ -664,6 +691,35 @@ pub fn gen_c03(rng: &mut Rng, thorough: bool) -> Vec<Tagged> {
             // fresh state, first call with step number 7
             let g = tensor_of_shape(&shape, &rng.vec(4, 2));
             out.push((format!("{}-first-call-step7-rank{}", opt.kind(), variant + 1), Case::OptHistory { opt, vals: vec![vec![vec![w]]], steps: vec![(0, 0, false, 7, g.clone()), (0, 0, false, 8, g)] }));
+        }
+    }
+    // extreme but valid hyper-parameters: tiny (below f32::EPSILON, denormal), huge, negative zero; each is
+    // used as given (only an exact 0.0 selects the documented default); tiny gradients so that eps matters
+    {
+        let tiny = [5e-8f32, 1e-10, 1e-20, 1e-40, 1.1920929e-7, 1e-7];
+        let mut hp: Vec<Opt> = vec![];
+        for (k, &v) in tiny.iter().enumerate() {
+            hp.push(Opt::SGD { lr: v, decay: if k % 2 == 0 { None } else { Some(v) } });
+            hp.push(Opt::SGDM { lr: v, momentum: 0.9, dampening: 0.0, decay: None });
+            hp.push(Opt::SGDM { lr: 0.1, momentum: v, dampening: v, decay: Some(v) });
+            hp.push(Opt::Adam { lr: v, b1: 0.9, b2: 0.999, eps: 1e-8, decay: None });
+            hp.push(Opt::Adam { lr: 0.01, b1: v, b2: v, eps: v, decay: Some(v) });
+            hp.push(Opt::AdamW { lr: v, b1: 0.9, b2: 0.999, eps: v, decay: v });
+            hp.push(Opt::AdamW { lr: 0.01, b1: v, b2: 0.999, eps: 1e-8, decay: 0.01 });
+            hp.push(Opt::RMS { lr: v, alpha: 0.9, eps: v, decay: None, momentum: None, centered: k % 2 == 0 });
+            hp.push(Opt::RMS { lr: 0.01, alpha: v, eps: 1e-8, decay: Some(v), momentum: Some(v), centered: k % 2 == 1 });
+        }
+        for &v in &[-0.0f32, 3.0, 1e6] {
+            hp.push(Opt::SGD { lr: v, decay: Some(v) });
+            hp.push(Opt::Adam { lr: v, b1: 0.9, b2: 0.999, eps: v, decay: None });
+            hp.push(Opt::RMS { lr: v, alpha: 0.9, eps: v, decay: None, momentum: Some(v), centered: false });
+        }
+        for (k, opt) in hp.into_iter().enumerate() {
+            let shape = [Shape::Single(3), Shape::Double(1, 3), Shape::Triple(1, 1, 3)][k % 3].clone();
+            let w = tensor_of_shape(&shape, &[0.5, -0.25, 1.5]);
+            let gs: [[f32; 3]; 3] = [[0.5, -0.75, 1e-6], [1e-6, -2e-7, 0.25], [-0.125, 3e-6, 1e-7]];
+            let steps: Vec<(usize, usize, bool, i32, Tensor)> = (0..3).map(|s| (0usize, 0usize, false, s as i32 + 1, tensor_of_shape(&shape, &gs[s]))).collect();
+            out.push((format!("{}-extreme-hyperparameters", opt.kind()), Case::OptHistory { opt, vals: vec![vec![vec![w]]], steps }));
         }
     }
     // wrong slot / rank mismatch is refused
